@@ -73,6 +73,7 @@ class Sym:
         self._lin = {}
         self._view = {}
         self.found = {}   # bb -> dict(view, patlen, ascii, pat)
+        self.alts = {}    # bb of an unwrap_or call -> [Lin, Lin]
         self._scan_finds()
 
     # ------------------------------------------------------------ helpers
@@ -198,6 +199,21 @@ class Sym:
                         if v is not None:
                             res = Lin(0, {("firstchar", v.key()): 1})
                 if res is None:
+                    res = Lin(0, {("call", c.bb): 1})
+            elif c.name in ("unwrap_or", "unwrap_or_else") and "Option" in (c.self_ty or c.path) and len(c.args) == 2:
+                # s.find(p).unwrap_or(d): either the found position or the default
+                alts = None
+                o = self.f.origin(c.args[0], depth=8)
+                while o[0] == "proj":
+                    o = o[1]
+                if o[0] == "call" and o[1].bb in self.found and c.name == "unwrap_or":
+                    dflt = self.lin_op(c.args[1], depth + 1)
+                    if dflt is not None:
+                        alts = [Lin(0, {("found", o[1].bb): 1}), dflt]
+                if alts:
+                    self.alts[c.bb] = alts
+                    res = Lin(0, {("alt", c.bb): 1})
+                else:
                     res = Lin(0, {("call", c.bb): 1})
             else:
                 res = Lin(0, {("call", c.bb): 1})
@@ -354,6 +370,17 @@ class Sym:
                 if c > 0:
                     return False, "position of %s(%r) plus %d, but the matched pattern is only %s bytes long" % (
                         info["call"].name, info["pat"], c, info["patlen"] if info["patlen"] is not None else "an unknown number of")
+        # find(..).unwrap_or(default): both alternatives must be valid positions
+        if len(L.a) == 1 and L.c == 0 and _depth < 3:
+            (a, coef), = L.a.items()
+            if a[0] == "alt" and coef == 1 and a[1] in self.alts:
+                whys = []
+                for sub in self.alts[a[1]]:
+                    okd, whyd = self.valid_in(view, sub, _depth=_depth + 1)
+                    if not okd:
+                        return False, "find(..).unwrap_or(..): the alternative %s — %s" % (sub.render(self.namer), whyd)
+                    whys.append(whyd)
+                return True, "find(..).unwrap_or(..): " + " / ".join(whys)
         # byte length of the first character of the same view
         if len(L.a) == 1 and L.c == 0 and list(L.a.items())[0] == (("firstchar", view.key()), 1):
             return True, "len_utf8() of the first character yielded by chars().next() of this string"
